@@ -38,6 +38,7 @@ RULES = {
     "W6": R3.rule_W6,
     "W7": R3.rule_W7,
     "W8": R3.rule_W8,
+    "D11": R3.rule_D11,
     "T19": R3.rule_T19,
     "T18": R3.rule_T18,
     "T17": R3.rule_T17,
@@ -47,6 +48,7 @@ RULES = {
     "N4": T.rule_N4,
     "N6": N.rule_N6,
     "N7": N.rule_N7,
+    "N8": N.rule_N8,
     "T8": C.rule_T8,
     "T9": B.rule_T9,
     "T10": B.rule_T10,
@@ -88,7 +90,7 @@ RULES = {
 
 PROPS = {
     "C01": {
-        "rules": ["T1", "T2", "A5", "T9p", "T12", "D6", "W2", "T4", "T6", "N7"],
+        "rules": ["T1", "T2", "A5", "T9p", "T12", "D6", "W2", "T4", "T6", "N7", "D11"],
         "claim": "Decides the wiring clauses of C01, not the computed values: every operator spelling is wired, through the "
         "five tables lexer -> get_definition -> handle_parse_node -> execute_current_instruction -> perform_*, to the "
         "public runtime function and GarnishNumber method the language table gives it; the three dispatch matches "
@@ -96,7 +98,7 @@ PROPS = {
         "(A5: at the host boundary left = popped second; T9p: the builder emits every binary construct left operand first, the two "
         "reviewed right-first constructs Pair and ApplyTo having a runtime reader that takes its first pop as the left value); and every child build node inherits its parent's containing-expression entry, only a "
         "nested expression body and the tree root starting a new one (T12: a reapply re-enters the expression it is written in); and a call "
-        "returns into its caller's frame (D6: push_frame / pop_frame of BasicGarnishData encode and decode the frame chain inversely). Also (W2): a number stored by a program reads back as that number - the hash that alone keys SimpleGarnishData's constant table keeps Integer and Float apart. Also, as necessary conditions on what the operators compute: (T4) the logical instructions && || ^^ !! ?? classify every value type with exactly {False, Unit} false and leave a boolean, (T6) the four ordering instructions agree with the comparison table, (N7) no arithmetic method answers 'no result' because an intermediate step of a different operation overflowed.",
+        "returns into its caller's frame (D6: push_frame / pop_frame of BasicGarnishData encode and decode the frame chain inversely). Also (W2): a number stored by a program reads back as that number - the hash that alone keys SimpleGarnishData's constant table keeps Integer and Float apart. Also, as necessary conditions on what the operators compute: (T4) the logical instructions && || ^^ !! ?? classify every value type with exactly {False, Unit} false and leave a boolean, (T6) the four ordering instructions agree with the comparison table, (N7) no arithmetic method answers 'no result' because an intermediate step of a different operation overflowed. And (D11) each operand's build node sits at its own slot.",
     },
     "C02": {
         "rules": ["T3", "T13", "T17", "T18", "T19"],
@@ -188,16 +190,16 @@ PROPS = {
         "store primitives rewrite cells (W1). Structural identity after compaction is not decided. Also (D2): the compaction's look-ups slice the raw heap only with rebased bounds (must-analysis: both bounds of a slice, every definition of a local, every call site of a parameter) - the root look-ups of optimize() must not reach cells in front of the index list.",
     },
     "C04": {
-        "rules": ["T10", "A2", "G5", "T18"],
+        "rules": ["T10", "A2", "G5", "T18", "D11"],
         "claim": "Decides the attribution clause of C04, not the tree shape: every one of the 69 Definition handlers (except the reviewed "
         "Group / ElseJump / Drop) records at least one instruction with Some(index of the node it handles), and on every path through "
         "the builder each emitted instruction gets exactly one metadata record (so an attribution can be neither lost nor doubled); and the 'no node is "
         "shared or lies on a cycle' clause for everything build accepts: build() itself walks the links from the root, marks visited nodes and returns Err "
         "for a node reached twice before it emits anything (G5). That the in-order walk of the accepted tree is the token stream is value-dependent parser "
-        "bookkeeping and is not decided. Also (T18): an arm of parse() that computes a shifted id for the node it creates (because a synthetic List node may be inserted in front of it) records that id, not the unshifted one, in the loop-carried parser state - so the tokens that follow are linked under the node that was meant, not under the List node outside the brackets (a necessary condition of 'child and parent links agree / the in-order walk is the token order').",
+        "bookkeeping and is not decided. Also (T18): an arm of parse() that computes a shifted id for the node it creates (because a synthetic List node may be inserted in front of it) records that id, not the unshifted one, in the loop-carried parser state - so the tokens that follow are linked under the node that was meant, not under the List node outside the brackets (a necessary condition of 'child and parent links agree / the in-order walk is the token order'). Also (D11): every build node is stored at the slot of the parse node it was constructed for, so each operand schedules and emits itself (none is silently replaced by its sibling).",
     },
     "C05": {
-        "rules": ["A2", "D4", "T1", "T11", "D7", "A10"],
+        "rules": ["A2", "D4", "T1", "T11", "D7", "A10", "G5"],
         "claim": "Decides three clauses of C05: exactly one metadata record per emitted instruction on every builder path (A2, path-sensitive "
         "typestate); operands have the kind their instruction's reader expects and come from the data object's own tables - jump "
         "operands and expression values from get_jump_table_len(), data operands from add_*/parse_add_*, list counts from the child "
@@ -208,7 +210,7 @@ PROPS = {
         "patches it: a node's conditional_parent is handed on to another node only by the handler that schedules conditional_items - the else-chain - "
         "never by a group or operator in between (D7); an entry is registered before the code it names: on every path through build() a jump-table "
         "registration precedes the first emitting call (A10, must-pass-through on the MIR CFG), so an entry cannot be get_instruction_len() taken after the "
-        "instruction it should point at. Root-stack exhaustion depends on program shape and is not decided.",
+        "instruction it should point at. Root-stack exhaustion depends on program shape and is not decided. Also (G5): build() rejects every parse result in which a node is reachable twice - the validating walk has no iteration path that neither marks the node nor fails - so no node is built under two parents (the second build state would overwrite the first and leave its reserved jump-table entry unpatched).",
     },
     "C20": {
         "rules": ["D4", "W1", "W3", "W2", "W8"],
@@ -237,13 +239,13 @@ PROPS = {
         "The dynamic depth of whole programs is not decided. Also (A11): the work-list helpers whose net effect A1 takes on trust (the concatenation walker, the equality work list) return Ok only after leaving a `get_register_len() > mark` test on its exit edge and pop only inside such a guard, so they neither leave borrowed operands behind nor pop their caller's. Also (D7): only the else-chain handler forwards a node's conditional_parent - a conditional wrongly marked as chain member loses its fall-through PutValue and the enclosing jump then runs with one operand too few; and (T11): every root is closed by its end-instruction list, the end instruction being skipped only when the identical pair was already emitted by this root and no join point of an else chain continues at the next instruction (otherwise the join aliases the next root and a branch re-enters itself, growing the operand stack forever).",
     },
     "C08": {
-        "rules": ["A4", "A5", "A1", "G3", "T2", "G3b", "A12"],
+        "rules": ["A4", "A5", "A1", "G3", "T2", "G3b", "A12", "W5"],
         "claim": "Decides the structural clauses of C08 on all instruction functions: on every path the host's defer_op is called at most "
         "once, with the Instruction constant that dispatches to that function, with (type, address) of the left operand then the "
         "right operand in source order (A4, A5); after a declining host exactly one unit is pushed and after an accepting host none "
         "(A1 arity on the declined / accepted edges); and for every one of the 21x21 operand type pairs of every instruction function "
         "the dedicated UnsupportedOpTypes error cannot reach the function's Err return (G3). Other error sources (data-impl errors) "
-        "are not decided. Also (A4 unit-without-offer): in a function that defers undefined combinations, no path answers unit having neither asked the host nor read / built any value (flags-only interpretation); `type_cast`'s defined cast of unit is the one reviewed exception. A declined offer is answered with the unit value made by add_unit on every path, never with a placeholder address (A4 declined-without-unit). Also (G3b, offer matrix): for every deferring instruction and every tuple of the 21 operand types, abstract interpretation of the handler under that type assumption shows an Ok outcome without a defer_op offer only for the tuples the language defines (spec/defined_operands.json) - so no undefined combination is answered (with unit or anything else) without the host having been asked. Also (A12): the data objects' defer_op returns the host's answer unchanged, so 'declined' reaches the runtime exactly when the host declined.",
+        "are not decided. Also (A4 unit-without-offer): in a function that defers undefined combinations, no path answers unit having neither asked the host nor read / built any value (flags-only interpretation); `type_cast`'s defined cast of unit is the one reviewed exception. A declined offer is answered with the unit value made by add_unit on every path, never with a placeholder address (A4 declined-without-unit). Also (G3b, offer matrix): for every deferring instruction and every tuple of the 21 operand types, abstract interpretation of the handler under that type assumption shows an Ok outcome without a defer_op offer only for the tuples the language defines (spec/defined_operands.json) - so no undefined combination is answered (with unit or anything else) without the host having been asked. Also (A12): the data objects' defer_op returns the host's answer unchanged, so 'declined' reaches the runtime exactly when the host declined. Also (W5): every function that builds a SimpleGarnishData from another one carries over each function-pointer field (resolver, op handler), so a copy made for a run still reaches the host's deferred-operation callback.",
     },
     "C10": {
         "rules": ["T4", "T9", "A1", "T11"],
@@ -263,14 +265,14 @@ PROPS = {
         "Counts and order across a whole program are not decided. Also (W5): every function that builds a SimpleGarnishData from another one carries over each function-pointer field (resolver, op handler), so the documented callbacks still fire on a clone. BasicGarnishData's add_* / parse_add_* return the address a store primitive returned for the value they wrote, never an address computed from stored indices (W6) - the operand of the Resolve the builder emits must stay a symbol. Also (A12): both data implementations hand the host's answer to the runtime unchanged - resolve / apply / defer_op return the callback's own result (or false when no host is consulted), never a value recomputed from the object's state.",
     },
     "C09": {
-        "rules": ["N1", "N2", "N3", "W2", "N6", "N7"],
+        "rules": ["N1", "N2", "N3", "W2", "N6", "N7", "N8"],
         "claim": "Decides the no-wrap/no-trap/finiteness clauses of C09 on the code of impl GarnishNumber for SimpleNumber and its helpers: "
         "no raw or unchecked integer arithmetic, every overflow flag is branched on, no saturating float->int cast, every Float "
         "built from an arithmetic result is dominated by a test excluding NaN and +-inf; and (W2) the result an operation stores reads "
         "back as that number: SimpleGarnishData interns stored numbers by their 64-bit hash alone, so SimpleNumber's hand-written Hash must "
         "feed the hasher a lossless encoding that keeps the Integer/Float variant apart (a narrowing cast, or a float hashed as the equal "
         "integer, makes `0.5 + 1.5` read back as the Integer 2 already in the store). The numeric exactness of std's "
-        "overflowing_*/f64 operations is trusted, not decided. Also (N6): 'no result' is decided on exact conditions only - no tolerance test (|x| < eps, comparison with EPSILON) turns a finite, representable quotient into unit.",
+        "overflowing_*/f64 operations is trusted, not decided. Also (N6): 'no result' is decided on exact conditions only - no tolerance test (|x| < eps, comparison with EPSILON) turns a finite, representable quotient into unit. Also (N8): integer operands are compared only with the documented domain bounds of the operation (zero; 0/31/32 for shift counts; -1 for the MIN / -1 case) - no threshold or magnitude test predicts an overflow by hand, so a representable result at the asymmetric edge of the 32-bit range is not turned into unit.",
     },
     "C12": {
         "rules": ["T6", "N4", "T15", "T16"],
